@@ -1,5 +1,7 @@
 \* start(awaitable) in one thread under virtual time: NC coroutines (1 = the awaited one) run lazily chosen
-\* programs of <= MaxOps commands (sleep_until / cancel / finish)
+\* programs of <= MaxOps commands (sleep_until / cancel / finish); the awaited one ends with no value / a value /
+\* an exception / a dropped promise, told to start() directly or through the coro_queue; start() is called MaxRuns times
+\* on the same object
 SPECIFICATION Spec
 CONSTANTS
   Mode = "start"
@@ -13,6 +15,9 @@ CONSTANTS
   AllowRemove = FALSE
   Interval = 0
   NC = 2
-INVARIANTS TypeOK HeapWellFormed LiveMatchesPending NeverEarly DeadlineOrder PromptManual CancelHitsOne NotifyWhenEarliest NothingAfterDestroy PromptWhenIdle NoOversleep CoroConsistent ReturnsWhenFinished NoHang
-PROPERTIES ExactlyOncePerSleep LiveFrame CancelFalseNoEffect DestroyCancelsPending ClockStandsWhileReady StartTerminates
+  MainRes = {"void", "val", "exc", "drop"}
+  MainVia = {"direct", "queued"}
+  MaxRuns = 2
+INVARIANTS TypeOK HeapWellFormed LiveMatchesPending NeverEarly DeadlineOrder PromptManual CancelHitsOne NotifyWhenEarliest NothingAfterDestroy PromptWhenIdle NoOversleep CoroConsistent ReturnsWhenFinished NoHang MainOutcome
+PROPERTIES ExactlyOncePerSleep LiveFrame CancelFalseNoEffect DestroyCancelsPending ClockStandsWhileReady ResultStable StartTerminates
 CHECK_DEADLOCK FALSE
